@@ -119,13 +119,13 @@ func isSHA256Helper(fn *ssa.Function) bool {
 		if isCallTo(&c.Call, "crypto/sha256", "New") {
 			newCall = true
 		}
-		if c.Call.IsInvoke() && c.Call.Method.Name() == "Write" && len(c.Call.Args) == 1 && strip(c.Call.Args[0]) == ssa.Value(fn.Params[0]) {
+		if c.Call.IsInvoke() && c.Call.Method.Name() == "Write" && len(c.Call.Args) == 1 && strip(c.Call.Args[0]) == strip(fn.Params[0]) {
 			wroteParam = true
 		}
 		if c.Call.IsInvoke() && c.Call.Method.Name() == "Sum" {
 			sum = true
 		}
-		if isCallTo(&c.Call, "crypto/sha256", "Sum256") && len(c.Call.Args) == 1 && strip(c.Call.Args[0]) == ssa.Value(fn.Params[0]) {
+		if isCallTo(&c.Call, "crypto/sha256", "Sum256") && len(c.Call.Args) == 1 && strip(c.Call.Args[0]) == strip(fn.Params[0]) {
 			newCall, wroteParam, sum = true, true, true
 		}
 	}
